@@ -174,7 +174,7 @@ func tail(s string, n int) string {
 func parentMain() {
 	run := lib.NewRun("C20", "exploration")
 	run.SetRule("fixed case lists from VERIF_SEED and tier. (a) conversations = seeded lists of writes (0..64 KiB, frame-aligned and off-by-one sizes) in both directions, read with seeded buffer sizes 1..4096; non-trivial = more than one sealed frame. " +
-		"(b) for every frame k (auth frames 0,1 and all data frames) of seeded conversation shapes: one bit flipped in each byte class (tag, length, data, padding; first, last and random offsets), drop, replay, swap with k+1, truncation inside and at the frame; bit flips in the ephemeral key; active MITM handshake variants; distinct = (kind,class,k,direction,shape). " +
+		"(b) for every frame k (auth frames 0,1 and all data frames) of seeded conversation shapes: one bit flipped in each byte class (tag, length, data, padding; first, last and random offsets), drop, replay, swap with k+1, truncation inside and at the frame; a recorded data frame put in the place of the frame 64, 127, 128, 129, 255, 256 and 257 frames later in 300-frame conversations; bit flips in the ephemeral key; active MITM handshake variants; distinct = (kind,class,k,direction,shape). " +
 		"(c) sessions of two MConnections (pipe, TCP loopback, or over two SecretConnections), 4 channels with different priorities / queue capacities / receive capacities, concurrent senders using Send and TrySend, sizes 0..capacity incl. multiples of 1024 and capacity+1; distinct = session plan. " +
 		"(d) the full matrix refuse-list x identity x auth_by_ca x non_validator_node_auth x validator x signature kind x direction x transport against real Switch objects; hostile handshake inputs against a node child process.")
 	run.Assume("the in-memory relay delivers bytes in order and unmodified except for the planned tampering",
